@@ -9,6 +9,8 @@ from props.base import corpus_for  # noqa: F401
 from props import c01
 
 ID = 'C10'
+HANG_CLAUSE = 'total'     # the property promises termination: a case that does not return is a failing input
+CASE_TIMEOUT = 10
 LEAN_MODULES = ['PybtexModel.Props.C10']
 DRV = ['C01']     # uses the bibparse op of the C01 driver module
 THEOREMS = {
@@ -246,6 +248,12 @@ def gen_cases(tier, rng, info):
                 continue      # without '@' the reader does nothing: keep these for short strings only
             cases.append({'op': 'bibparse', 'text': s})
             nstr += 1
+    # deep nesting: names and values nested 99 / 100 / 101 / 150 deep (the name scanner has a nesting limit; unbounded recursion is excluded by the property)
+    for depth in (99, 100, 101, 150):
+        deep = '{' * depth + 'x' + '}' * depth
+        for t in ('@a{k, author = %s}' % deep, '@a{k, author = {A %s and B}}' % deep, '@a{k, t = %s # "q"}' % deep, '@a{k, editor = "%s"}' % deep,
+                  '@string{m = %s} @a{k, author = m}' % deep):
+            cases.append({'op': 'bibparse', 'text': t})
     ncorr = 0
     for pre, entry, post in BASE_DOCS:
         kind = 'string' if entry.lower().startswith('@string') else 'entry'
